@@ -518,7 +518,7 @@ def random_call(rng, alphabet):
     if m == "query":
         return m, [], rng.choice(["QX", "V", "Q,1", "QX", "QT"])
     if m == "write_nickname":
-        return m, [], rng.choice(["Axi", "East Wing", "", "N%d" % R(0, 99), "Jerry", "BERRY 2", "okay", "Q7"])
+        return m, [], rng.choice(["Axi", "East Wing", "", "N%d" % R(0, 99), "Jerry", "BERRY 2", "okay", "Q7", "NextDraw-2234-A1", "QT-Plotter-No-16"])      # the last two: 16 characters, the longest name a board stores (with the padding the text handed over is longer)
     if m == "var_write":
         return m, [R(0, 255), R(0, 31)], ""
     if m == "var_read":
